@@ -41,6 +41,9 @@ def _dt_strategy(tier, kind):
         return {
             "sim": kind, "shape": draw(gen.grid_shape(dim, 5, 40 if dim == 2 else 10)), "dtype": draw(gen.precisions),
             "x_range": draw(gen.nice_or_log(1e-2, 1e2)), "nu": draw(st.one_of(gen.log_uniform(1e-6, 1e2), gen.log_uniform(1e-6, 1e2), gen.log_uniform(1e-6, 1e2), st.just(0.0))),
+            # balanced regime: viscosity chosen so that the diffusive limit is this multiple of the advective limit of the first
+            # velocity field (None: independent viscosity) - the two limits cross within the drawn window
+            "nu_balance": draw(st.one_of(st.none(), st.none(), gen.floats(0.25, 4.0, 32))),
             "cfl": draw(gen.floats(0.01, 2.0, 32)), "prefac": draw(gen.floats(0.01, 1.0, 32)), "velocity": vel, "vkind": vk,
             # history on the SAME simulator object: the velocity is overwritten between queries (as every flow step does),
             # optionally with a time step in between
@@ -60,6 +63,13 @@ def _dt_body(case, ctx):
     real_t = gen.np_dtype(case["dtype"])
     eps = float(np.finfo(real_t).eps)
     shape = tuple(case["shape"])
+    if case.get("nu_balance") is not None:
+        u_first = gen.build_vector_field(case["velocity"], shape, real_t).astype(np.float64)
+        um = float(np.max(np.sum(np.abs(u_first), axis=0)))
+        if um > 0:
+            dx0 = float(case["x_range"]) / shape[-1]
+            case = dict(case, nu=0.9 * dx0 * um / (2 * dim * case["cfl"]) / float(case["nu_balance"]))
+            ctx.note(labels=["limits_balanced"])
     kw = dict(grid_size=shape, x_range=case["x_range"], kinematic_viscosity=case["nu"], cfl=case["cfl"], real_t=real_t, num_threads=2)
     with ctx.repo_call(f"constructing {kind}"):
         if kind == "ns2d":
